@@ -1,10 +1,14 @@
 #!/bin/bash
-# mirdump_path.sh <crate dir> <out name> : MIR of a crate outside /repo (the scenario harness)
+# mirdump_path.sh <crate dir> <out name> [outdir] : MIR of a crate outside /repo (the scenario harness)
 set -e
-mkdir -p /verif/.build/mir
+out=${3:-/verif/.build/work/adhoc/mir}
+mkdir -p "$out" /verif/.build
 cd "$1"
-cp /repo/Cargo.lock . 2>/dev/null || true
-touch src/lib.rs
-CARGO_NET_OFFLINE=true CARGO_TARGET_DIR=/verif/.build/mir-target-h RUSTFLAGS="--cfg metrics_verif" cargo +nightly rustc --offline --lib -- -Zunpretty=mir -C debug-assertions=off -C overflow-checks=on > /verif/.build/mir/$2.mir.tmp 2> /verif/.build/mir/$2.err
-mv /verif/.build/mir/$2.mir.tmp /verif/.build/mir/$2.mir
-wc -l /verif/.build/mir/$2.mir
+(
+  flock 9
+  cp /repo/Cargo.lock . 2>/dev/null || true
+  touch src/lib.rs
+  CARGO_NET_OFFLINE=true CARGO_TARGET_DIR=/verif/.build/mir-target-h RUSTFLAGS="--cfg metrics_verif" cargo +nightly rustc --offline --lib -- -Zunpretty=mir -C debug-assertions=off -C overflow-checks=on > "$out/$2.mir.tmp" 2> "$out/$2.err"
+) 9> /verif/.build/mirdump-h.lock
+mv "$out/$2.mir.tmp" "$out/$2.mir"
+wc -l "$out/$2.mir"
